@@ -1192,6 +1192,80 @@ theorem out_cycle_refines_run (c : DevConfig) (ec : EpCfg) (hw : 0 < ec.size) (h
     · simp only [List.map_cons, C12.sliceFinal, hstep, expandAll, runState_append]; exact b2
     · simp only [List.map_cons, cycObs, C12.sliceRun, hstep, a2, b3]
 
+/-! ### `histOk` from the event level's legality conditions
+
+`EpDev.legalEvent` lets a data packet only follow a token directly (`gPrevTok`) and makes an OUT packet for a stream
+endpoint fit its FIFO.  That is enough for the `armed` part of `histOk`: the token before the packet was either
+accepted by this device (so the acceptor is armed) or it was not (so the PID register has been cleared and the
+registers do not name the endpoint). -/
+
+def isToken : HostEvent → Bool
+  | .token _ _ _ => true
+  | _ => false
+
+/-- every data event directly follows a token event (`prevTok`), its cycles are a transaction of C13's acceptor
+carrying its packet, and it fits the FIFO if the registers name the endpoint -/
+def legalOk (c : DevConfig) (ec : EpCfg) : DevState → OutState → Bool → List (HostEvent × Gaps) → Bool
+  | _, _, _, [] => true
+  | d, e, prevTok, (ev, g) :: rest =>
+    (match ev with
+     | .data pid p crcOk =>
+       prevTok && segOk (cfgOf ec) (tokOf (tkD d)) (tn (pidToggleBit pid)) p crcOk g.seg g.resp g.tail &&
+       decide ((d.tokEp = ec.num ∧ d.tokPid = PID_OUT) → e.fifo.length + p.length ≤ ec.depth)
+     | _ => true) &&
+    legalOk c ec (core c d ev).1 (outEv ec (sharedOf c d ev) e ev).1 (isToken ev) rest
+
+theorem histOk_of_legalOk (c : DevConfig) (ec : EpCfg) (h : List (HostEvent × Gaps)) :
+    ∀ (d : DevState) (e : OutState) (a prevTok : Bool), legalOk c ec d e prevTok h = true →
+      (prevTok = true → a = true ∨ d.tokPid ≠ PID_OUT) → histOk c ec d e a h = true := by
+  induction h with
+  | nil => intro d e a pt _ _; rfl
+  | cons x rest ih =>
+    obtain ⟨ev, g⟩ := x
+    intro d e a pt hl hj
+    simp only [legalOk, Bool.and_eq_true] at hl
+    obtain ⟨h1, h2⟩ := hl
+    simp only [histOk, Bool.and_eq_true, decide_eq_true_eq]
+    cases ev with
+    | data pid p crcOk =>
+      simp only [Bool.and_eq_true, decide_eq_true_eq] at h1
+      obtain ⟨⟨hpt, hseg⟩, hfit⟩ := h1
+      refine ⟨⟨?_, hseg, ?_⟩, ih _ _ _ _ h2 (by simp [isToken])⟩
+      · have := Device.onData_tok c d p crcOk
+        show (⟨(core c d (.data pid p crcOk)).1.tokPid, (core c d (.data pid p crcOk)).1.tokEp⟩ : Tk) = tkD d
+        simp only [core, this.1, this.2, tkD]
+      · intro hown
+        refine ⟨?_, hfit hown⟩
+        rcases hj hpt with ha | hne
+        · exact ha
+        · exact absurd hown.2 hne
+    | token pid addr ep =>
+      refine ⟨trivial, ih _ _ _ _ h2 ?_⟩
+      intro _
+      by_cases haddr : addr = d.address
+      · left; simp [armedNext, sharedOf, EpDev.acceptedToken, haddr]
+      · right; simp [core, haddr, PID_OUT]
+    | handshake pid => exact ⟨trivial, ih _ _ _ _ h2 (by simp [isToken])⟩
+    | sof f => exact ⟨trivial, ih _ _ _ _ h2 (by simp [isToken])⟩
+    | malformed b => exact ⟨trivial, ih _ _ _ _ h2 (by simp [isToken])⟩
+    | quiet => exact ⟨trivial, ih _ _ _ _ h2 (by simp [isToken])⟩
+    | busReset => exact ⟨trivial, ih _ _ _ _ h2 (by simp [isToken])⟩
+    | produce e' b l => exact ⟨trivial, ih _ _ _ _ h2 (by simp [isToken])⟩
+    | consume e' k => exact ⟨trivial, ih _ _ _ _ h2 (by simp [isToken])⟩
+    | setSignal e' v => exact ⟨trivial, ih _ _ _ _ h2 (by simp [isToken])⟩
+
+/-- **`cycle_refines_event`, histories, from reset, under the event level's legality conditions** (`legalOk`: a data
+packet directly follows a token, an OUT packet for the endpoint fits its FIFO; plus the shape of every packet's cycle
+sequence, `segOk`). -/
+theorem out_cycle_refines_legal (c : DevConfig) (ec : EpCfg) (hw : 0 < ec.size) (hn : 0 < ec.num)
+    (h : List (HostEvent × Gaps)) (hl : legalOk c ec Device.init {} false h = true) :
+    ∃ e' a', (C12.sliceFinal c ec (Device.init, .sout {}) (h.map (·.1))).2 = .sout e' ∧
+      Rel (cfgOf ec) e' (runState (cfgOf ec) init (expandAll c ec Device.init h))
+        (phOf a' (tkD (C12.sliceFinal c ec (Device.init, .sout {}) (h.map (·.1))).1)) ∧
+      cycObs c ec Device.init init h = (C12.sliceRun c ec (Device.init, .sout {}) (h.map (·.1))).map wiresOf :=
+  out_cycle_refines_run c ec hw hn h Device.init {} false init
+    (histOk_of_legalOk c ec h Device.init {} false false hl (by simp)) (rel_init _)
+
 /-! ### Non-vacuity: stream OUT endpoint 2, max packet size 8, buffer 12 -/
 
 def exEc : EpCfg := ⟨.streamOut, 2, 8, 12⟩
@@ -1245,6 +1319,9 @@ def exHistory : List (HostEvent × Gaps) :=
    (.consume 2 9, exGaps)]
 
 example : histOk {} exEc Device.init {} false exHistory = true := by decide +kernel
+/-- the history without its fourth OUT transaction, in which a `quiet` event separates token and data packet, also
+satisfies the event level's legality conditions -/
+example : legalOk {} exEc Device.init {} false (exHistory.take 7 ++ exHistory.drop 10) = true := by decide +kernel
 example : (C12.sliceRun {} exEc (Device.init, .sout {}) (exHistory.map (·.1))).map wiresOf =
     [[.ack], [], [.ack], [], [.ack], [], [], [], [], [.ack], [.nak],
      [.xfer (11, true, false), .xfer (12, false, false), .xfer (13, false, true), .xfer (21, true, false)],
